@@ -3,8 +3,8 @@
 (a) exp_pauliword_to_gates(word, c, control) == controlled(expm(-i c P))   exactly, no phase freedom.
 (b) get_exponentiated_qubit_operator_circuit / trotterize / TrotterSuzukiUnitary.build_circuit:
     phase * unitary(circuit) == expm(-i t H) (1e-8) when all terms commute, otherwise the spectral-norm error is below
-    the rigorous product-formula commutator bound (orders 1, 2) or below the rigorous order-p Taylor-remainder bound
-    (orders 4, 6: "convergence").
+    the rigorous product-formula commutator bound (orders 1, 2); orders 4, 6 ("convergence"): rigorous order-p
+    Taylor-remainder bound plus the observed convergence rate between r and 2r steps.
 """
 import itertools
 from math import pi, factorial
@@ -27,20 +27,23 @@ RULE = ("(a) exhaustive sweep of all 63 non-identity Pauli words on 3 letters x 
         "XX,YY,ZZ / random families) and Hermitian fermionic operators (JW/BK/scBK/JKMN, both spin orderings), scalar or "
         "per-term times, orders 1/2 (4/6 separately), 1-4 Trotter steps, controls none/int/list, return_phase on/off, "
         "pauli_order, TrotterSuzukiUnitary time/repeat; oracle = scipy expm(-i t H) with H from vlib Pauli/Fock matrices: "
-        "equality (1e-8) when all terms commute, else spectral-norm error <= Childs-et-al. commutator bound (order 1, 2) or "
-        "<= order-p Taylor remainder bound (orders 4, 6). Non-trivial = (commuting: >=2 non-zero terms or non-zero identity term "
-        "or control) / (non-commuting: bound < 1). Distinct = distinct canonical JSON of the case.")
+        "equality (1e-8) when all terms commute, else spectral-norm error <= Childs-et-al. commutator bound (order 1, 2); orders 4, 6: "
+        "error <= order-p Taylor remainder bound at r and 2r steps and error(2r) <= 2 * 2^-p * error(r) when error(r) >= 1e-9. Non-trivial = (commuting: >=2 non-zero terms or non-zero identity term "
+        "or control) / (non-commuting: bound < 1; orders 4, 6: rate criterion active). Distinct = distinct canonical JSON of the case.")
 ASSUMPTIONS = ["numpy/scipy linear algebra (scipy.linalg.expm, 2-norm by SVD)",
                "reference gate table vlib/refsim.py (self-tested against expm) with XX/RZ/PHASE conventions of DESIGN section 3",
                "product-formula bounds: Childs, Su, Tran, Wiebe, Zhu 2021 Prop. 9/10 evaluated on the input term order and its "
                "reverse (max of both); fermionic inputs use the order-independent triangle-inequality relaxation; orders 4/6 use "
                "the Taylor-remainder bound 2 r (L|t|/r)^(p+1)/(p+1)! e^(L|t|/r); all self-tested on an independent expm product formula",
+               "orders 4/6 rate criterion error(2r) <= 2 * 2^-p * error(r) is asymptotic, not rigorous: genuine Suzuki formulas measured at "
+               "0.76..1.03 * 2^-p for per-step exponent norm <= 4 (900 random Hamiltonians), an order p-2 formula gives 4 * 2^-p; asserted only "
+               "for error(r) >= 1e-9",
                "fermionic inputs: the Hamiltonian matrix is the independent Fock-space matrix for JW; for BK/scBK/JKMN the "
                "operator returned by fermion_to_qubit_mapping is trusted (examined by C03)",
                "terms with |coef*t| <= 1e-10 may be dropped by the code; tolerance widened by 1e-10 per exponential factor",
                "controls are python ints / lists of ints disjoint from the operator support; coefficients real (Hermitian H)",
                "<= 7 qubits including controls"]
-EXHAUSTIVE = True
+EXHAUSTIVE = False     # only the Pauli-word sweep enumerates its (finite) sub-domain completely; the property's domain is not exhausted
 SHARDS = {"quick": 4, "thorough": 16}
 
 TOL = 1e-8
